@@ -157,16 +157,18 @@ Section Model.
   Definition steal_count (n : Z) : Z := if n <=? 0 then 0 else (n + share - 1) / share.
 
   Definition init (n0 : Z) : state :=
-    ST [] (repeat [] (Z.to_nat (Z.max n0 1))) (repeat [] (Z.to_nat (Z.max (steal_count n0) 1))) 0
+    ST [] (repeat [] (Z.to_nat n0)) (repeat [] (Z.to_nat (steal_count n0))) 0
        n0 n0 (steal_count n0) [] RIdle 0 [] [] 0.
 
   Definition pkey (tid : nat) (tok : Z) : Z := if tok =? 0 then Z.of_nat tid else 1000 + tok.
 
   (* phase reached after the ring / steal-ring cursor moved past index i *)
-  Definition after_ring (s : state) (i : nat) : phase :=
-    if Nat.ltb (S i) (length (rings s)) then PhRings (S i) else PhSteals 0.
-  Definition after_steal (s : state) (i : nat) : phase :=
-    if Nat.ltb (S i) (length (steals s)) then PhSteals (S i) else PhDrained.
+  Definition steal_phase (s : state) (i : nat) : phase :=
+    if Nat.ltb i (length (steals s)) then PhSteals i else PhDrained.
+  Definition ring_phase (s : state) (i : nat) : phase :=
+    if Nat.ltb i (length (rings s)) then PhRings i else steal_phase s 0.
+  Definition after_ring (s : state) (i : nat) : phase := ring_phase s (S i).
+  Definition after_steal (s : state) (i : nat) : phase := steal_phase s (S i).
 
   Definition idle_thread (th : thread) : bool :=
     nilb (pend th) && is_none (held th) && nilb (exec th) && pc_free (tpc th) && nilb (pcstk th) &&
@@ -189,9 +191,9 @@ Section Model.
             guard (nilb (central s) && (site =? (if dt then 2 else 0))) (Some (set_rz s (RActive who dt n PhCentral1)))
         | PhCentral1, EJoinBegin => Some (set_rz s (RActive who dt n PhJoining))
         | PhJoining, EJoinDone =>
-            guard (nworkers s =? 0) (Some (set_rz s (RActive who dt n (if dt then PhJoined else PhRings 0))))
+            guard (nworkers s =? 0) (Some (set_rz s (RActive who dt n (if dt then PhJoined else ring_phase s 0))))
         | PhJoined, ECentralDone site =>
-            guard (nilb (central s) && (site =? 3)) (Some (set_rz s (RActive who dt n (PhRings 0))))
+            guard (nilb (central s) && (site =? 3)) (Some (set_rz s (RActive who dt n (ring_phase s 0))))
         | PhRings i, EDrainRing j t =>
             guard ((j =? Z.of_nat i) && is_none (held th))
             match lget [] i (rings s) with
